@@ -15,6 +15,10 @@ def gen_overwrite(rng, shape):
 
 
 def conc_part(res):
+    import random
+    from . import seq
+    seq.scripts_phase(res, "c15", seq.gen_overwrite_scripts(random.Random(res.seed + 5), res.tier), ["res", "alloc"],
+                      "overwrite_scripts")
     conc.conc_phase(res, "c15", ("lin", "null", "scan", "deadlock"), ["single", "last", "sublayer-last"], (), False,
                     150 if res.tier == "quick" else 1000,
                     ("preempt1",) if res.tier == "quick" else ("preempt1", "preempt2", "pct"),
@@ -34,6 +38,9 @@ def run(tier, seed):
 
 def replay(path, tier, seed):
     r = json.load(open(path))
+    if str(r.get("kind", "")).startswith("seq-"):
+        from . import seq
+        return seq.replay_seq("C15", "c15", path, ["res", "alloc"])
     if str(r.get("kind", "")).startswith("conc-"):
         print(json.dumps(r, indent=1)[:3000])
         return 1
